@@ -495,7 +495,13 @@ def create_npu_activation(op: Operation) -> NpuActivation:
     act = NpuActivation(act_op)
     act.min = op.activation.min
     act.max = op.activation.max
-    if act_op is NpuActivationOp.NONE_OR_RELU and op.type.is_avgpool_op() and not op.explicit_scaling:
+    if (
+        act_op is NpuActivationOp.NONE_OR_RELU
+        and op.type.is_avgpool_op()
+        and not op.explicit_scaling
+        # a fused Quantize keeps the zero point of its OFM (see use_zero_point_0): min/max must not be offset by it
+        and op.original_type != Op.Quantize
+    ):
         quant = op.ofm.quantization
         if quant and quant.zero_point:  # Zero point is not 0
             scale_f32 = 1 if quant.scale_f32 is None else quant.scale_f32
